@@ -494,7 +494,7 @@ func genCase(h *rt.H) []string {
 			var v int
 			switch h.Intn(6) {
 			case 0:
-				v = rt.Pick(h, []int{-1, 0, 1, 2, 2999, 3000, 3001, 100000})
+				v = rt.Pick(h, []int{-1, 0, 1, 2, 2999, 3000, 3001, 13104, 13105, 20000, 100000})
 			default:
 				v = 1 + h.Intn(3000)
 			}
